@@ -302,12 +302,13 @@ Lemma digit_run_split_refuted :
   parse_wkt_chars (chars "POINT(1234)") = inr (Err TypeError).
 Proof. vm_compute. split; reflexivity. Qed.
 
-(* a Z value with four integer digits and a fraction is not one number of the grammar: the
-   library's own text 'POINT(1.0 2.0 1500.5)' reads back with z = 1500.0 (units of 0.1) *)
-Lemma z_four_digits_refuted :
-  from_wkt_chars TPoint (chars "POINT(1.0 2.0 1500.5)") =
-  inr (Ok (GPoint (mkc 10 20 (Some 15000)), -1)).
-Proof. vm_compute. reflexivity. Qed.
+(* regression for repair D33: a Z value with four and more integer digits is one number of the
+   grammar; the library's own text 'POINT(1.0 2.0 1500.5)' reads back exactly (units of 0.1) *)
+Lemma z_four_digits_read_exactly :
+  from_wkt_chars TPoint (chars "POINT(1.0 2.0 1500.5)") = inr (Ok (GPoint (mkc 10 20 (Some 15005)), -1)) /\
+  from_wkt_chars TMPoint (chars "MULTIPOINT(6.5 0.1 12345.678, 1.0 0.5)") =
+  inr (Ok (GMPoint [mkc 6500 100 (Some 12345678); mkc 1000 500 None], -3)).
+Proof. vm_compute. split; reflexivity. Qed.
 
 (* the same text with a three-digit Z is read exactly; exponent form (repair D13) is accepted *)
 Lemma char_level_examples :
